@@ -1,10 +1,11 @@
 """C05 — running a config through any stream equals calling each test on its window rows."""
 import adapters
 import core
+import fn_callrun as fcr
 import fn_stream as fs
 
 PID = "C05"
-MODEL_TARGETS = ["Stream", "StreamProbe"]
+MODEL_TARGETS = ["Stream", "StreamProbe", "CallRun"]
 PROPS_TARGETS = ["Props_C05"]
 TRUSTED_BASE = ["modelled, not verified: pandas boolean row selection and .loc label assignment, numpy boolean "
                 "indexing, xarray .sel(time=slice(a, b)) (end-inclusive), Config.contexts grouping (distinct windows), "
@@ -67,13 +68,15 @@ def run(ctx):
     for c in cases[:: (2 if tier == "quick" else 1)]:
         if not fs.xarray_deviates(c):
             extra += fs.direct_call_failures(c)
+    r3 = adapters.run_adapter(fcr.CallRunAdapter(), fcr.gen_callrun(tier, rng), rng)
     nq, fq = qcconfig_failures(rng, 60 if tier == "quick" else 600)
     r1["failures"] += extra + fq
     r1["evaluations"] += nq
     return adapters.merge(
-        [r1, r2],
-        rule="random programs: tables of 0-6 rows (time present/absent, z/lat/lon present/absent, 1-2 data columns, pandas "
-             "index default/offset/reversed/shuffled) x 1-3 contexts with distinct windows (none, closed, start-only, "
+        [r1, r2, r3],
+        rule="Call.run with generated test signatures (positional-or-keyword / required / keyword-only / **kwargs) x "
+             "configured and passed keyword arguments (colliding names: passed wins) vs CallRun.v; random programs: tables of 0-6 rows (time present/absent, z/lat/lon present/absent, 1-2 data columns, pandas "
+             "index default/offset/reversed/shuffled) x 1-3 contexts (a window may be listed again later: A, B, A) with windows (none, closed, start-only, "
              "end-only, empty, all-covering, a row exactly at `ending`) x 1-2 streams (+ absent stream id) x 1-2 probe "
              "tests each, on PandasStream, NumpyStream, NetcdfStream, XarrayStream; each run compared with the Coq model "
              "of that front end, with the Coq specification, and with the probe called directly on the window rows; plus "
